@@ -30,7 +30,7 @@ def c13(ctx):
         r = s.run_seq('c13_wrap_seq', covers=[1])
         ctx.add(tag(r, mode='M1', flavor=fl, sample={'scenario': 'c13_wrap_seq', 'generation': 'symbolic', 'paths': r['paths']}))
     # the wrap while a writer is inside the retired node (helping), context-bounded
-    cb_run(ctx, SPECS['nf_wrap'], 2 if ctx.tier == 'quick' else 3, features=('test-strategies',))
+    cb_run(ctx, SPECS['nf_wrap'], 3, features=('test-strategies',))
 
 
 def conc_run(ctx, spec, flavor='rel', features=(), **kw):
@@ -49,6 +49,11 @@ def cb_run(ctx, spec, K, flavor='rel', features=(), **kw):
         '%s: every schedule of its %d threads with at most %d preemptions at gated atomic steps (free switches when a thread finishes)' % (
             spec['name'], len(spec['threads']), K))
     return ctx.add(tag(r, flavor=flavor, features=features))
+
+
+def cb_set(ctx, names, K, **kw):
+    for n in names:
+        cb_run(ctx, SPECS[n], K, **kw)
 
 
 W = 'cs_warm'
@@ -149,6 +154,10 @@ def c01(ctx):
     ctx.outside += CONC_OUTSIDE
     conc_set(ctx, ['a_fast', 'a_full', 'moved_guard'] if ctx.tier == 'quick' else ['a_fast', 'moved_guard', 'a_full', 'a_keep', 'b_held3', 'b_fallback', 'iso_b'])
     seq_run(ctx, 'c10_seq_threads')
+    if ctx.tier == 'quick':
+        cb_set(ctx, ['a_full', 'b_fallback'], 2)
+    else:
+        cb_set(ctx, ['a_fast', 'a_full', 'a_keep', 'b_held3', 'b_fallback', 'iso_b', 'moved_guard'], 3)
 
 
 @prop('C02')
@@ -160,6 +169,7 @@ def c02(ctx):
     seq_run(ctx, 'c14_default_2', covers=(1, 2))
     seq_run(ctx, 'c14_cursor')
     seq_run(ctx, 'c10_seq_threads')
+    cb_set(ctx, ['a_keep', 'swap2', 'b_held3'], 2 if ctx.tier == 'quick' else 3)
 
 
 @prop('C03')
@@ -169,7 +179,9 @@ def c03(ctx):
     ctx.outside += CONC_OUTSIDE
     conc_set(ctx, ['lin1'] if ctx.tier == 'quick' else ['lin1', 'lin1_fb'], timeout_s=1200)
     # reader on the helping path doing load; store; load against a helping writer (NoFastSlots), context-bounded
-    cb_run(ctx, SPECS['nf_lin_rec'], 2 if ctx.tier == 'quick' else 3, features=TS)
+    cb_run(ctx, SPECS['nf_lin_rec'], 3, features=TS)
+    if ctx.tier != 'quick':
+        cb_set(ctx, ['lin1', 'lin1_fb'], 3)
 
 
 @prop('C04')
@@ -190,7 +202,7 @@ def c05(ctx):
     seq_run(ctx, 'c05_forms')
     seq_run(ctx, 'c05_forms_option')
     # cas(obj0 -> obj1) racing swap(obj2); store(obj0): the A-B-A schedules need 3 preemptions
-    cb_run(ctx, SPECS['cas_aba'], 2 if ctx.tier == 'quick' else 3)
+    cb_run(ctx, SPECS['cas_aba'], 3)
 
 
 @prop('C06')
@@ -211,6 +223,8 @@ def c12(ctx):
     ctx.outside += CONC_OUTSIDE
     seq_run(ctx, 'c12_shared_value')
     conc_set(ctx, ['iso_b'])
+    cb_run(ctx, SPECS['nf_iso'], 3, features=TS)
+    cb_run(ctx, SPECS['iso_b'], 2 if ctx.tier == 'quick' else 3)
     if ctx.tier != 'quick':
         ctx.bounds['helping_path'] = 'scenario nf_iso on HybridStrategy<NoFastSlots>: reader alternates helping loads of B and A while a writer of B helps it'
         conc_run(ctx, SPECS['nf_iso'], features=TS, loop_bound=3, timeout_s=1200)
@@ -247,6 +261,7 @@ def c16(ctx):
     ctx.bounds.update({'program_length': 3 if ctx.tier == 'quick' else 5, 'caches': 'cache, clone, mapped cache', 'pool_values': 3})
     seq_run(ctx, 'c16_seq_3' if ctx.tier == 'quick' else 'c16_seq_5', max_paths=400000)
     seq_run(ctx, 'c16_option')
+    cb_run(ctx, SPECS['cache_rt'], 2 if ctx.tier == 'quick' else 3)
     if ctx.tier != 'quick':
         ctx.bounds['concurrent'] = 'cache.load() on one thread against two stores with progress flags on another (all SC interleavings): freshness after a completed store'
         conc_run(ctx, SPECS['cache_rt'], loop_bound=3, timeout_s=900)
@@ -281,6 +296,7 @@ def c20(ctx):
     seq_run(ctx, 'c20_ser', features=('serde',))
     seq_run(ctx, 'c20_de', features=('serde',))
     conc_run(ctx, SPECS['ser_conc'], features=('serde',), loop_bound=3)
+    cb_run(ctx, SPECS['ser_conc'], 3, features=('serde',))
 
 
 @prop('C15')
@@ -337,6 +353,7 @@ def c10(ctx):
     if ctx.tier != 'quick':
         seq_run(ctx, 'c10_seq_threads', flavor='dbg')
         conc_run(ctx, SPECS['moved_guard'], loop_bound=3)
+    cb_run(ctx, SPECS['moved_guard'], 3)
 
 
 @prop('C11')
@@ -347,7 +364,7 @@ def c11(ctx):
     seq_run(ctx, 'c11_churn_3' if ctx.tier == 'quick' else 'c11_churn_4', max_paths=100000)
     seq_run(ctx, 'c11_shutdown_ops')
     # a thread exits and a new one starts while a helping writer is still inside the first one's node
-    cb_run(ctx, SPECS['nf_churn'], 2 if ctx.tier == 'quick' else 3, features=TS)
+    cb_run(ctx, SPECS['nf_churn'], 3, features=TS)
     if ctx.tier != 'quick':
         seq_run(ctx, 'c11_shutdown_ops', flavor='dbg')
 
